@@ -231,6 +231,7 @@ where
             xs.shape() == ys.shape(),
             "`xs.shape()` and `ys.shape()` do not match"
         );
+        crate::assert_buffer_shape(self.get_buffer_shape(xs.raw_dim()).slice(), buffer.shape());
         if TypeId::of::<Dq>() == TypeId::of::<Ix1>() {
             // Safety: We checked that `Dq` has type `Ix1`.
             //    Therefor the `&ArrayBase<Sq, Dq>` and `&ArrayBase<Sq, Ix1>` must be the same type.
